@@ -247,10 +247,11 @@ def dump():
     for line in out.splitlines():
         line, _, rest = line.partition("\t")
         absform, _, rest2 = rest.partition("\t")
-        resform, _, ropform = rest2.partition("\t")
+        resform, _, rest3 = rest2.partition("\t")
+        ropform, _, mkform = rest3.partition("\t")
         m = re.match(r"^(\S+)\s+(\S+)\s+P=(.*?)\s+// (.*)$", line)
         if m:
-            rows.append((m.group(1), m.group(2), m.group(3).strip(), m.group(4).strip(), absform.strip(), resform.strip(), ropform.strip()))
+            rows.append((m.group(1), m.group(2), m.group(3).strip(), m.group(4).strip(), absform.strip(), resform.strip(), ropform.strip(), mkform.strip()))
     return rows
 
 def parse_poly(s):
@@ -291,7 +292,7 @@ def main():
             print("PICK NOT FOUND:", fn, text, file=sys.stderr)
             missing += 1
             continue
-        _, op, ps, _, absform, resform, ropform = cands[0]
+        _, op, ps, _, absform, resform, ropform, mkform = cands[0]
         poly = parse_poly(ps)
         k = poly.pop("", 0)
         # atoms of monomials (split products)
@@ -321,8 +322,8 @@ def main():
             regs.append(r)
             coefs.append(c)
         count = len(cands)
-        out.append('\t{fn: %s, atoms: []string{%s}, op: %s, k: %d, coefs: []int64{%s}, count: %d, abs: %s, res: %s, rop: %s, spec: %s},' % (
-            gq(fn), ", ".join(gq(r) for r in regs), gq(op), k, ", ".join(str(c) for c in coefs), count, gq(absform), gq(resform), gq(ROP), gq(spec)))
+        out.append('\t{fn: %s, atoms: []string{%s}, op: %s, k: %d, coefs: []int64{%s}, count: %d, abs: %s, res: %s, rop: %s, mk: %s, spec: %s},' % (
+            gq(fn), ", ".join(gq(r) for r in regs), gq(op), k, ", ".join(str(c) for c in coefs), count, gq(absform), gq(resform), gq(ROP), gq(mkform), gq(spec)))
     for fn, typ, op, count, spec in TYPED:
         out.append('\t{fn: %s, typ: %s, op: %s, count: %d, spec: %s},' % (gq(fn), gq(typ), gq(op), count, gq(spec)))
     out.append("}")
